@@ -25,6 +25,7 @@ type closeParams struct {
 	closers int
 	post    string // call issued after Close returned
 	second  string // optional second in-flight call kind
+	mixed   bool   // two in-flight calls: the first one is answered, the second one's handler never answers
 }
 
 func (p closeParams) name() string {
@@ -34,6 +35,9 @@ func (p closeParams) name() string {
 	}
 	if p.second != "" {
 		k += "," + p.second
+	}
+	if p.mixed {
+		k += "/first-answered"
 	}
 	return fmt.Sprintf("close/%s/buf=%d/%s/blocks=%v/closers=%d/post=%s", k, p.buf, p.state, p.blocks, p.closers, p.post)
 }
@@ -85,7 +89,9 @@ func closeScenario(p closeParams) func() {
 			return
 		}
 		w.Handle = func(h *world.HCtx) world.Reply {
-			if p.blocks {
+			if p.mixed && h.Tok == 1 {
+				w.Wait("first") // answered when the script says so: at the same time as Close starts
+			} else if p.blocks {
 				world.Block()
 			}
 			if h.Send != nil {
@@ -108,7 +114,7 @@ func closeScenario(p closeParams) func() {
 			if kind == "GRPCCall" || strings.HasPrefix(kind, "Unicast") {
 				c.Node = 1
 			}
-			c.Verdict = func(inv *world.QFInv) { inv.Level = len(inv.Keys); inv.Quorum = !p.blocks }
+			c.Verdict = func(inv *world.QFInv) { inv.Level = len(inv.Keys); inv.Quorum = !p.blocks || (p.mixed && c.Tok == 1) }
 			return c
 		}
 		inflight := []*world.Call{mk(p.kind, p.nsw)}
@@ -118,9 +124,13 @@ func closeScenario(p closeParams) func() {
 		for _, c := range inflight {
 			w.Start(c)
 		}
+		if p.mixed {
+			mc.Quiesce() // both requests are with the server: the first handler waits for the gate, the second request behind it
+			w.Open("first")
+		}
 		closed := 0
 		for i := 0; i < p.closers; i++ {
-			mc.GoNamed(fmt.Sprintf("closer%d", i+1), func() {
+			mc.GoLow(fmt.Sprintf("closer%d", i+1), func() {
 				w.Mgr.Close()
 				closed++
 			})
@@ -145,7 +155,7 @@ func closeScenario(p closeParams) func() {
 			switch {
 			case !done:
 				fail("C12/stranded-in-flight", key, "%s: call t%d (%s) that was in progress when Close ran has not returned (client library threads: %v)", name, c.Tok, c.Kind, clientLibThreads())
-			case p.blocks && !world.IsOneWay(c.Kind) && err == nil:
+			case p.blocks && !(p.mixed && c.Tok == 1) && !world.IsOneWay(c.Kind) && err == nil:
 				fail("C12/no-error", key, "%s: call t%d could not finish (its handler never answers) but reports no error after Close", name, c.Tok)
 			}
 		}
@@ -237,13 +247,25 @@ func closeInstances(tier string) []Instance {
 			}
 		}
 	}
+	// two in-flight calls, the first of which is answered while the second waits (Close racing with a reply)
+	for _, a := range []string{"GRPCCall", "QuorumCall", "CorrectableStream"} {
+		for _, b := range []string{"GRPCCall", "QuorumCall", "QuorumCallAsync", "Correctable"} {
+			for _, buf := range []uint{0, 1} {
+				if buf == 1 && !thorough(tier) && a != "GRPCCall" {
+					continue
+				}
+				p := closeParams{kind: a, second: b, buf: buf, state: "connected", blocks: true, mixed: true, closers: 1, post: "GRPCCall"}
+				out = append(out, Instance{Name: p.name(), Bound: 2, Root: closeScenario(p)})
+			}
+		}
+	}
 	out = append(out, Instance{Name: "close/no-connect-manager", Bound: 0, Root: noConnectScenario})
 	return out
 }
 
 func init() {
 	register(&Check{ID: "C12",
-		Rule:        "9 in-flight call variants with never-ending contexts (optionally two calls) x send buffer {0,1,2} x node state {connected, down at creation, crashed with the receiver in back-off, blocking dial timed out at creation and the server came up later} x handler {never answers, answers} x 1 or 2 concurrent Close calls as free-running threads placed by the explorer at every instant within the deviation bound (call queued, being written, awaiting replies), then a call of a rotating type issued after Close, then a further sequential Close; plus Close on a WithNoConnect manager; back-off timers are fired to a horizon before each oracle; oracle: no panic, every Close returns, every in-flight and post-Close call returns (with an error where the API has one), no client library goroutine is alive and every connection is closed at the end; an outcome is (instance, completion summary)",
+		Rule:        "9 in-flight call variants with never-ending contexts (optionally two calls, both unanswered or the first one answered) x send buffer {0,1,2} x node state {connected, down at creation, crashed with the receiver in back-off, blocking dial timed out at creation and the server came up later} x handler {never answers, answers} x 1 or 2 concurrent Close calls as free-running threads placed by the explorer at every instant within the deviation bound (call queued, being written, awaiting replies), then a call of a rotating type issued after Close, then a further sequential Close; plus Close on a WithNoConnect manager; back-off timers are fired to a horizon before each oracle; oracle: no panic, every Close returns, every in-flight and post-Close call returns (with an error where the API has one), no client library goroutine is alive and every connection is closed at the end; an outcome is (instance, completion summary)",
 		Gen:         closeInstances,
 		Assumptions: []string{"'within bounded time' is decided in its eventual untimed form: after firing the armed library timers 4 rounds", "server-side goroutines (handlers that block forever by construction) are not counted as manager residue"},
 	})
